@@ -61,6 +61,7 @@ def run_lock_job(prop, job, normal_forms, confirm_crash=False):
         time.tzset()
         res.add_set("tz", job["tz"])
     confirmed = {}
+    job_sigs = set()
     for hno in range(job["nhist"]):
         version = job["versions"][(hno + job["i"]) % len(job["versions"])]
         flavour = job["flavours"][(hno // len(job["versions"])) % len(job["flavours"])]
@@ -83,7 +84,12 @@ def run_lock_job(prop, job, normal_forms, confirm_crash=False):
             if sig in seen:
                 continue
             seen.add(sig)
-            small = shrink(cfg, steps, prop, sig)
+            if sig in job_sigs:
+                if confirmed.get(sig, True):
+                    res.violation(sig, what, None)   # counted; the first occurrence carries the shrunk case
+                continue
+            job_sigs.add(sig)
+            small = shrink(cfg, steps, prop, sig, budget=3.0 if len(job_sigs) <= 4 else 0.3)
             case = {"cfg": cfg, "steps": small}
             if confirm_crash and sig.startswith("pump-exception") and flavour == "sync":
                 if sig not in confirmed:
